@@ -94,6 +94,12 @@ func buildActorDir(c *core.Ctx, a *c16Actor, dir string, helper string) error {
 	if _, _, err := ch.WriteLayout("with-inspection.layout", a.owner); err != nil {
 		return err
 	}
+	// ... and a variant whose inspection has the same name for every actor (the name is not part of
+	// what makes two verifications independent; their run directories are their own)
+	ch.Layout.Inspect[0].Name = "final-check"
+	if _, _, err := ch.WriteLayout("common-inspection-name.layout", a.owner); err != nil {
+		return err
+	}
 	ch.Layout.Inspect = nil
 	// every actor's layout has its own intermediate CA (so that the library builds a pool from
 	// the layout's and the caller's certificates)
@@ -481,7 +487,8 @@ func runC16(c *core.Ctx) {
 		}
 	}()
 	wg.Wait()
-	close(stopMon)
+	// (the monitor keeps watching the burst and the sequential pass, too)
+	defer close(stopMon)
 	concTime := time.Since(t0)
 	// data every goroutine handed in read-only: the shared list of extra intermediates, including
 	// the spare capacity behind it, must be as it was (seen without the race detector, too)
@@ -508,7 +515,20 @@ func runC16(c *core.Ctx) {
 			}
 			return normJSON(sum.GetPayload())
 		}
+		verifyWithDir := func(a *c16Actor) string {
+			dir := a.dirs[0]
+			md, err := intoto.LoadMetadata(filepath.Join(dir, "chain", "common-inspection-name.layout"))
+			if err != nil {
+				return errClassOf(err)
+			}
+			sum, err := intoto.InTotoVerifyWithDirectory(md, gen.KeyMap(a.owner), filepath.Join(dir, "chain", "links"), filepath.Join(dir, "chain", gen.RunDirName), "sum", nil, nil, false)
+			if err != nil {
+				return "error: " + strings.ReplaceAll(err.Error(), dir, "<own dir>")
+			}
+			return normJSON(sum.GetPayload())
+		}
 		const burstG, burstN = 24, 12
+		gotDir := make([][]string, burstG)
 		got := make([][]string, burstG)
 		envBad := make([]string, burstG)
 		var bw sync.WaitGroup
@@ -525,6 +545,10 @@ func runC16(c *core.Ctx) {
 				<-go2
 				for n := 0; n < burstN; n++ {
 					got[j] = append(got[j], verifyNested(actors[j%G]))
+					if j < G {
+						// one goroutine per run directory (the inspection command records that directory)
+						gotDir[j] = append(gotDir[j], verifyWithDir(actors[j]))
+					}
 					// an envelope of this goroutine's own: what is set is what is signed, dumped and loaded back
 					for rep := 0; rep < 4; rep++ {
 						want := gen.NewLink(fmt.Sprintf("burst-%d-%d-%d", j, n, rep), gen.Artifacts(map[string]string{fmt.Sprintf("line\none-%d\ttab", j): "x"}), nil)
@@ -558,6 +582,15 @@ func runC16(c *core.Ctx) {
 				if r != want && bad < 3 {
 					bad++
 					c.Violation("concurrent InTotoVerify(nested layouts, burst of 24 goroutines) returns another result than the same call made sequentially", id, map[string]any{"goroutine": j, "iteration": n, "concurrent": r, "sequential": want})
+				}
+			}
+		}
+		for j := 0; j < burstG && j < G; j++ {
+			want := verifyWithDir(actors[j]) // sequential now
+			for n, r := range gotDir[j] {
+				if r != want && bad < 9 {
+					bad++
+					c.Violation("concurrent InTotoVerifyWithDirectory (own run directory, inspection named like everybody else's; burst) returns another result than the same call made sequentially", id, map[string]any{"goroutine": j, "iteration": n, "concurrent": r, "sequential": want})
 				}
 			}
 		}
@@ -720,7 +753,7 @@ func init() {
 	core.Register(&core.Property{
 		ID:    "C16",
 		Level: "exploration",
-		Rule: "rounds = fresh worker processes (quick 16, thorough 48); round k uses G in {2,4,8,16,32} goroutines and GOMAXPROCS in {2,4,16}; every goroutine owns a generated tree (half with file and directory symlinks, half with 2 MiB CRLF files), keys, a chain directory and metadata files, and runs 1 (quick) / 3 (thorough) times the list LoadMetadata of layout and links (first library operation of the process: cold caches), RecordArtifacts with and without normalisation, Metablock Sign/Dump/Load/Verify and Envelope SetPayload/Sign/Dump/Load/Verify with the file rewritten four times under the same base name in every goroutine's own directory, InTotoRun (vhelper), InTotoRecordStart/Stop, InTotoMatchProducts, InTotoVerify (no inspections; two stray links by unauthorized keys for the first step; layout with its own intermediate CA; the caller's list of additional intermediates is one read-only slice with spare capacity shared by all goroutines), InTotoVerify of nested layouts, RecordArtifacts on a tree with a directory symlink cycle (the error text must be the caller's own), InTotoVerifyWithDirectory (own run dir, globally unique inspection name), SubstituteParameters; then a burst of 24 goroutines, each verifying a nested chain 12 times (compared with the sequential result) and setting / dumping / loading 48 envelopes of its own with multi-line content (what is loaded is what was set); then the same lists are executed sequentially on identical copies of the data and compared result by result. Even shards run the -race build with GORACE=halt_on_error=0 log_path=...: report blocks are counted from the log files and attributed by their in_toto frames; the hook handler there only yields. Odd shards run the normal build in census mode: hook events (record_reset / record_symlink) are logged with their owner, the evidence lists the distinct interleavings (windows of 12 events) and the maximum number of calls in flight. Hang monitor in both builds: a goroutine that shares nothing with the actors samples the CPU time of the process; a round whose process consumes no CPU for 45 s while calls are outstanding is reported (calls that never return) with the system call every thread is blocked in. " +
+		Rule: "rounds = fresh worker processes (quick 16, thorough 48); round k uses G in {2,4,8,16,32} goroutines and GOMAXPROCS in {2,4,16}; every goroutine owns a generated tree (half with file and directory symlinks, half with 2 MiB CRLF files), keys, a chain directory and metadata files, and runs 1 (quick) / 3 (thorough) times the list LoadMetadata of layout and links (first library operation of the process: cold caches), RecordArtifacts with and without normalisation, Metablock Sign/Dump/Load/Verify and Envelope SetPayload/Sign/Dump/Load/Verify with the file rewritten four times under the same base name in every goroutine's own directory, InTotoRun (vhelper), InTotoRecordStart/Stop, InTotoMatchProducts, InTotoVerify (no inspections; two stray links by unauthorized keys for the first step; layout with its own intermediate CA; the caller's list of additional intermediates is one read-only slice with spare capacity shared by all goroutines), InTotoVerify of nested layouts, RecordArtifacts on a tree with a directory symlink cycle (the error text must be the caller's own), InTotoVerifyWithDirectory (own run dir, globally unique inspection name), SubstituteParameters; then a burst of 24 goroutines, each verifying a nested chain 12 times and (one goroutine per actor) a chain with an inspection in its own run directory, the inspection being named alike for all (compared with the sequential results), and setting / dumping / loading 48 envelopes of its own with multi-line content (what is loaded is what was set); then the same lists are executed sequentially on identical copies of the data and compared result by result. Even shards run the -race build with GORACE=halt_on_error=0 log_path=...: report blocks are counted from the log files and attributed by their in_toto frames; the hook handler there only yields. Odd shards run the normal build in census mode: hook events (record_reset / record_symlink) are logged with their owner, the evidence lists the distinct interleavings (windows of 12 events) and the maximum number of calls in flight. Hang monitor in both builds: a goroutine that shares nothing with the actors samples the CPU time of the process; a round whose process consumes no CPU for 45 s while calls are outstanding is reported (calls that never return) with the system call every thread is blocked in. " +
 			"non-trivial = a round with >=2 calls in flight; distinct = (mode, round, goroutine, position in its operation list) of the compared concurrent calls, plus (mode, G, GOMAXPROCS, interleaving hash) per round",
 		Assumptions: []string{"inspections of InTotoVerify without run directory use the process cwd and are excluded from 'independent data'; InTotoVerifyWithDirectory drops <inspection>.link into the shared cwd under globally unique names", "the race detector only sees races on executed paths; its silence is 'no report on these executions'"},
 		Workers: func(t string) int {
